@@ -142,13 +142,19 @@ class Session:
         self.world = world
         self.conn = conn
         self.task = task
-        self.state = state
+        # weak: once the connection task ends, the server's ConnectionState
+        # (and its SelectedMailbox) must be freed exactly as in production
+        self._state_ref = weakref.ref(state) if state is not None else None
         self.proto = proto
         self.raw = bytearray()        # everything the server ever wrote
         self.parsed_upto = 0
         self.responses: list = []
         self.parse_error = None
         self.tagno = 0
+
+    @property
+    def state(self):
+        return self._state_ref() if self._state_ref is not None else None
 
     def pull(self):
         """Move new output into the transcript; returns (new_bytes,
